@@ -53,6 +53,10 @@ def check_node(node, phase, ctx):
     try:
         t = node.transfer_bytes
     except Exception as e:
+        if "adjust_chunks specified with" in str(e):
+            # the recorded C01/C08 finding (a node that recorded its input's block count over a native sliding-window
+            # kernel): here it is the chunks of a node under the one being asked that cannot be derived
+            return ("transfer_raises", f"{cls}.transfer_bytes raised {short_tb(e, 4)} [{phase}]", "transfer_raises:baked_block_count:Dimension_has_blocks")
         return ("transfer_raises", f"{cls}.transfer_bytes raised {short_tb(e, 4)} [{phase}]", f"transfer_raises:{cls}:{type(e).__name__}")
     ctx.tab("nodes_checked", f"{cls}")
     ctx.count("nodes_checked")
